@@ -47,7 +47,7 @@ Lemma region_step s x s' : stepF s x = Some s' ->
      (tpc s = SK /\ none_due (tnow s) (heap s) = true /\ aim s' = hmin (heap s) /\ tnow s' = tnow s /\ (forall L, lst s' L = lst s L) /\ (forall a, A s' a = A s a))).
 Proof.
   intros H. step_cases H; cbn in *; repeat split; auto; intros; try discriminate.
-  all: try (match goal with E : tpc _ = _ |- _ => rewrite E in * end; cbn in *; auto; fail).
+  all: try (match goal with E : tpc _ = _ |- _ => rewrite E in * end; cbn in *; try discriminate; auto; fail).
   all: auto 8.
   right; right; left. repeat split; auto.
 Qed.
@@ -89,12 +89,12 @@ Qed.
 
 Lemma rtake_dec s x : (exists r0, x = RStep r0 /\ rpc (R s r0) = R3) \/ ~ (exists r0, x = RStep r0 /\ rpc (R s r0) = R3).
 Proof.
-  destruct x as [d|a iv i|r L i|a|r|c]; try (right; intros (r0 & [=] & _); fail).
+  destruct x as [d|a iv i|r L i|a|r|c|v]; try (right; intros (r0 & [=] & _); fail).
   destruct (rpc_t_eq_dec (rpc (R s r)) R3); [left; eauto | right; intros (r0 & [= <-] & E); auto].
 Qed.
 Lemma atake_dec s x : (exists a0, x = AStep a0 /\ apc (A s a0) = A7) \/ ~ (exists a0, x = AStep a0 /\ apc (A s a0) = A7).
 Proof.
-  destruct x as [d|a iv i|r L i|a|r|c]; try (right; intros (r0 & [=] & _); fail).
+  destruct x as [d|a iv i|r L i|a|r|c|v]; try (right; intros (r0 & [=] & _); fail).
   destruct (apc_t_eq_dec (apc (A s a)) A7); [left; eauto | right; intros (r0 & [= <-] & E); auto].
 Qed.
 
